@@ -11,12 +11,15 @@ import sys
 from enc import dec_sent
 from pytableaux.logics import registry
 from pytableaux.proof import Tableau
+from pytableaux.proof.common import Branch
 
 
 def run_case(c):
     s = dec_sent(c['s'])
     tab = Tableau(c['logic'])
-    b = tab.branch()
+    # two documented ways to put a branch on a tableau: create it there and append, or fill it first and add it
+    prefilled = c['id'] % 2 == 1
+    b = Branch() if prefilled else tab.branch()
     for lit in c['lits']:
         m = {'sentence': ~s if lit['neg'] else s}
         if lit['d'] != '':
@@ -24,6 +27,8 @@ def run_case(c):
         if lit['w'] >= 0:
             m['world'] = lit['w']
         b.append(m)
+    if prefilled:
+        tab.add(b)
     tab.build()
     closed = int(len(tab.open) == 0)
     reads = []
